@@ -67,7 +67,7 @@ pub fn set_border(e: &mut Emu, machine: Machine, colour: u8) -> Result<(), Strin
     e.verif_ram_page_mut(page_no)[0..2].copy_from_slice(&[0xD3, 0xFE]);
     let r = RegFile { pc: 0x8000, sp: 0x9000, af: (colour as u16) << 8, ..Default::default() };
     mach::set_regs(e, &r);
-    mach::single_step(e)?;
+    mach::step_over(e, 2)?;
     e.verif_ram_page_mut(page_no)[0..2].copy_from_slice(&saved);
     Ok(())
 }
@@ -310,6 +310,7 @@ pub fn check(c: &Case, rec: &mut Rec) -> Result<(), String> {
     set_ref(&mut m.cpu, &CpuState { regs: lw.clone(), memptr: 0, q_is_f: false, halted: false, no_int: false });
     m.cpu.iff1 = lw.iff2;
     m.bus.t = t0;
+    let tb = crate::e2::TimeBase::new(&r, machine);
     {
         let cpu = r.verif_cpu();
         cpu.regs.set_mem_ptr(0);
@@ -331,8 +332,7 @@ pub fn check(c: &Case, rec: &mut Rec) -> Result<(), String> {
         if m.cpu.pc < 0x4000 {
             break;
         }
-        mach::single_step(&mut r)?;
-        m.step_group();
+        m.lockstep(&mut r, &tb)?;
         let got = mach::get_regs(&mut r);
         let want = crate::e1::get_ref_regs(&m.cpu);
         if got != want {
